@@ -309,6 +309,13 @@ let eval_line (fields : string list) : (string * string) list =
          | None -> "err" in
        if e <> res then fail "oracle.C09" ("spec-side split says: " ^ e)
      end
+   | ["hugesum"; what; _hex; res] ->
+     (* a type whose fixed-size parts sum past usize::MAX (outside the model, whose sums are unbounded): decoding a few
+        bytes as it must still be an error, not a panic *)
+     bump ("hugesum." ^ res);
+     nontrivial ();
+     if res = "panic" then fail "oracle.C05" ("decoding as " ^ what ^ ": the sum of the fixed lengths overflows usize and panics")
+     else if res = "ok" then fail "oracle.C04" ("three bytes accepted as " ^ what)
    | ["builderl"; regs; hex; mask; res] ->
      (* the decoder driven leniently: the closures of the items picked by [mask] fail and the caller goes on; every
         call consumes one item, so each item that is decoded is still exactly its own slice, in order *)
